@@ -150,7 +150,10 @@ Fixpoint v64_dec (value i : Z) (bs : list Z) : option (Z * list Z) :=
 Definition dec_varint64 (bs : list Z) : option (Z * list Z) := v64_dec 0 0 bs.
 
 (* ---------------------------------------------------------------- length-prefixed blobs *)
-Definition split_at (n : Z) (bs : list Z) : option (list Z * list Z) := take (Z.to_nat n) bs.
+(* value = data.read(n); if len(value) != n: raise.  (The test on the length first keeps a
+   huge length read from foreign bytes from being expanded to a unary number.) *)
+Definition split_at (n : Z) (bs : list Z) : option (list Z * list Z) :=
+  if blen bs <? n then None else take (Z.to_nat n) bs.
 
 (* String / Bytes: signed length, negative = null *)
 Definition enc_blob (w : nat) (o : option (list Z)) : list Z :=
@@ -204,8 +207,9 @@ Fixpoint dec_tagged_loop (n : nat) (prev : Z) (bs : list Z) : option (list (Z * 
           if tag <=? prev then None
           else match dec_uvarint r1 with
                | Some (size, r2) =>
-                   let body := firstn (Z.to_nat size) r2 in
-                   let r3 := skipn (Z.to_nat size) r2 in
+                   let k := Z.to_nat (Z.min size (blen r2)) in   (* read(size) returns at most what is left *)
+                   let body := firstn k r2 in
+                   let r3 := skipn k r2 in
                    match dec_tagged_loop n' tag r3 with
                    | Some (l, r4) => Some ((tag, body) :: l, r4)
                    | None => None
@@ -216,9 +220,11 @@ Fixpoint dec_tagged_loop (n : nat) (prev : Z) (bs : list Z) : option (list (Z * 
       end
   end.
 
+(* every iteration starts by reading a varint (at least one byte, an exception on exhausted
+   data), so more fields than remaining bytes always ends in an exception *)
 Definition dec_tagged (bs : list Z) : option (list (Z * list Z) * list Z) :=
   match dec_uvarint bs with
-  | Some (n, r) => dec_tagged_loop (Z.to_nat n) (-1) r
+  | Some (n, r) => if blen r <? n then None else dec_tagged_loop (Z.to_nat n) (-1) r
   | None => None
   end.
 
@@ -235,6 +241,44 @@ Fixpoint rep (d : list Z -> option (val * list Z)) (n : nat) (bs : list Z)
                              end
             | None => None
             end
+  end.
+
+(* The same loop by recursion on the binary representation of the count: it stops at the
+   first element that fails, so a huge count read from foreign bytes costs nothing
+   (rep_z d n = rep d (Z.to_nat n), proof/C11_roundtrip.v: rep_z_eq). *)
+Fixpoint rep_pos (d : list Z -> option (val * list Z)) (p : positive) (bs : list Z)
+  : option (list val * list Z) :=
+  match p with
+  | xH => match d bs with
+          | Some (v, r) => Some ([v], r)
+          | None => None
+          end
+  | xO p' => match rep_pos d p' bs with
+             | Some (l1, r1) => match rep_pos d p' r1 with
+                                | Some (l2, r2) => Some (l1 ++ l2, r2)
+                                | None => None
+                                end
+             | None => None
+             end
+  | xI p' => match d bs with
+             | Some (v, r0) =>
+                 match rep_pos d p' r0 with
+                 | Some (l1, r1) => match rep_pos d p' r1 with
+                                    | Some (l2, r2) => Some (v :: l1 ++ l2, r2)
+                                    | None => None
+                                    end
+                 | None => None
+                 end
+             | None => None
+             end
+  end.
+
+(* `for _ in range(n)`: nothing for n <= 0 *)
+Definition rep_z (d : list Z -> option (val * list Z)) (n : Z) (bs : list Z)
+  : option (list val * list Z) :=
+  match n with
+  | Zpos p => rep_pos d p bs
+  | _ => Some ([], bs)
   end.
 
 (* ---------------------------------------------------------------- the codec *)
@@ -295,14 +339,14 @@ Fixpoint dec (t : ty) (bs : list Z) : option (val * list Z) :=
       match dec_sint 4 bs with
       | Some (n, r) =>
           if n =? -1 then Some (VArr None, r)
-          else omap (fun l => VArr (Some l)) (rep (dec t') (Z.to_nat n) r)
+          else omap (fun l => VArr (Some l)) (rep_z (dec t') n r)
       | None => None
       end
   | TCompactArray t' =>
       match dec_uvarint bs with
       | Some (u, r) =>
           if u - 1 =? -1 then Some (VArr None, r)
-          else omap (fun l => VArr (Some l)) (rep (dec t') (Z.to_nat (u - 1)) r)
+          else omap (fun l => VArr (Some l)) (rep_z (dec t') (u - 1) r)
       | None => None
       end
   | TSchema fs =>
